@@ -16,7 +16,14 @@ INF = float("inf")
 POOL = {1: np.array([0.0, 0.0]), 2: np.array([1.0, 2.0]), 3: np.array([-2.0, 1.0])}
 
 
+OFFSET = 500.0        # two realizations return f and f + 1000: the ensemble value is f + 500
+
+
 def fobj(x):
+    return (x[..., 0] - 3.0) ** 2 + 2.0 * (x[..., 1] + 1.0) ** 2 + OFFSET
+
+
+def _raw(x):
     return (x[..., 0] - 3.0) ** 2 + 2.0 * (x[..., 1] + 1.0) ** 2
 
 
@@ -69,6 +76,7 @@ def run(sc, speculative):
     cfg = {"variables": {"initial_values": POOL[1].tolist()},
            "optimizer": {"method": "rvscipy/" + sc.get("method", METHOD[cls]), "speculative": bool(speculative),
                          "split_evaluations": bool(sc["split"])},
+           "realizations": {"weights": [1.0, 1.0]},
            "gradient": {"number_of_perturbations": 5, "perturbation_magnitudes": 0.001}}
     if cls == "pop":
         cfg["variables"].update({"lower_bounds": [-5.0, -5.0], "upper_bounds": [5.0, 5.0]})
@@ -83,13 +91,15 @@ def run(sc, speculative):
         perts = context.perturbations
         hasf = perts is None or bool(np.any(perts < 0))
         hasg = perts is not None and bool(np.any(perts >= 0))
+        sel = context.realizations == 0
         if perts is None:
-            pts = [pool_index(v) for v in variables]
+            pts = [pool_index(v) for v in variables[sel]]
         else:
-            base = variables[perts < 0] if hasf else variables
+            base = variables[(perts < 0) & sel] if hasf else variables
             pts = [pool_index(base.mean(axis=0))] if not hasf else [pool_index(v) for v in base]
         evals.append({"pts": pts, "f": hasf, "g": hasg})
-        return EvaluatorResult(objectives=fobj(variables)[:, None], constraints=fcon(variables)[:, None] if hasnl else None)
+        return EvaluatorResult(objectives=(_raw(variables) + 1000.0 * context.realizations)[:, None],
+                               constraints=fcon(variables)[:, None] if hasnl else None)
 
     events = []
     sig = []
@@ -143,6 +153,7 @@ def run(sc, speculative):
                 pts = [pool_index(v) for v in (cx if cx.ndim > 1 else [cx])]
                 cbs.append({"pt": int("".join(str(p) for p in pts)) if pts else 0, "pts": pts, "f": c["f"], "g": c["g"]})
             events.append({"ev": "Req", "op": op, "xs": xs, "ats": ats, "outcome": outcome, "cbs": cbs,
+                           "reqpt": int("".join(str(p) for p in xs)),
                            "evals": [dict(e) for e in evals], "cls": "grad" if cls == "grad" else "nograd",
                            "split": bool(sc["split"]), "speculative": bool(speculative)})
 
@@ -152,7 +163,7 @@ def run(sc, speculative):
     with patched(script=script):
         _, outcome = outcome_of(lambda: plan.run_step(step, config=cfg))
     if outcome != "ok":
-        events.append({"ev": "Req", "op": "run", "xs": [], "ats": [], "outcome": outcome, "cbs": [], "evals": [],
+        events.append({"ev": "Req", "op": "run", "xs": [], "ats": [], "outcome": outcome, "cbs": [], "evals": [], "reqpt": 0,
                        "cls": "grad" if cls == "grad" else "nograd", "split": bool(sc["split"]), "speculative": bool(speculative)})
     return events, sig
 
@@ -178,6 +189,7 @@ def drive_real(sc):
     cfg = {"variables": {"initial_values": [0.5, 0.5]},
            "optimizer": {"method": "rvscipy/" + method, "speculative": bool(sc["speculative"]),
                          "split_evaluations": bool(sc["split"]), "max_functions": sc["maxfun"]},
+           "realizations": {"weights": [1.0, 1.0]},
            "gradient": {"number_of_perturbations": 5, "perturbation_magnitudes": 0.001}}
     if sc["bounds"]:
         cfg["variables"].update({"lower_bounds": [-5.0, -5.0], "upper_bounds": [5.0, 5.0]})
@@ -194,9 +206,11 @@ def drive_real(sc):
         perts = context.perturbations
         hasf = perts is None or bool(np.any(perts < 0))
         hasg = perts is not None and bool(np.any(perts >= 0))
-        base = variables if perts is None else (variables[perts < 0] if hasf else variables[:0])
+        sel = context.realizations == 0
+        base = variables[sel] if perts is None else (variables[(perts < 0) & sel] if hasf else variables[:0])
         evals.append({"pts": [pid(v) for v in base], "f": hasf, "g": hasg})
-        return EvaluatorResult(objectives=fobj(variables)[:, None], constraints=fcon(variables)[:, None] if hasnl else None)
+        return EvaluatorResult(objectives=(_raw(variables) + 1000.0 * context.realizations)[:, None],
+                               constraints=fcon(variables)[:, None] if hasnl else None)
 
     def wrap(op, kind, fn):
         def inner(x, *a, **k):
@@ -241,6 +255,7 @@ def drive_real(sc):
                 cbs.append({"pt": pid(np.concatenate([np.atleast_1d(q) for q in cx]) if cx.ndim > 1 else cx) + (1000 if cx.ndim > 1 else 0),
                             "pts": pts, "f": c["f"], "g": c["g"]})
             events.append({"ev": "Req", "op": op, "xs": xs, "ats": ats, "outcome": outcome, "cbs": cbs,
+                           "reqpt": (pid(np.concatenate([np.atleast_1d(q) for q in members])) + 1000) if len(members) > 1 else xs[0],
                            "evals": [dict(e) for e in evals], "cls": "grad" if cls == "grad" else "nograd",
                            "split": bool(sc["split"]), "speculative": bool(sc["speculative"])})
             if stop is not None:
@@ -276,7 +291,7 @@ def drive_real(sc):
     with patched(wrap_real=wrap_real):
         _, outcome = outcome_of(lambda: plan.run_step(step, config=cfg))
     if outcome not in ("ok",):
-        events.append({"ev": "Req", "op": "run", "xs": [], "ats": [], "outcome": outcome, "cbs": [], "evals": [],
+        events.append({"ev": "Req", "op": "run", "xs": [], "ats": [], "outcome": outcome, "cbs": [], "evals": [], "reqpt": 0,
                        "cls": "grad" if cls == "grad" else "nograd", "split": bool(sc["split"]), "speculative": bool(sc["speculative"])})
     return events, {"nontrivial": len(events) > 3, "key": "real|" + json.dumps(sc, sort_keys=True), "cls": cls, "split": bool(sc["split"]),
                     "constraint_first_at_new_point": False}
@@ -289,6 +304,10 @@ def drive(sc):
     evB, sigB = run(sc, True)
     interned = {s: i for i, s in enumerate(sorted({json.dumps(sigA), json.dumps(sigB)}))}
     trace = evA + [{"ev": "Reset"}] + evB + [{"ev": "Pair", "sigA": interned[json.dumps(sigA)], "sigB": interned[json.dumps(sigB)]}]
+    if sc["cls"] != "pop" and "nl" not in sc and any(h["op"] in ("c", "J") for h in sc["hist"]):
+        # the same history on a problem with linear constraints only (no ensemble evaluation behind the constraint values)
+        evL, _ = run(dict(sc, nl=False, lin=True), False)
+        trace += [{"ev": "Reset"}] + evL
     hist = sc["hist"]
     pts = [tuple(h.get("xs", [h.get("x")])) for h in hist]
     firsts = set()
